@@ -1,3 +1,91 @@
 // Kani harnesses mounted into crates/rip-workspace/src/lib.rs (cfg(kani) only).
 #![allow(unused_imports, dead_code)]
 use super::*;
+include!("/verif/harness/common.rs");
+
+fn kani_workspace() -> Workspace {
+    Workspace {
+        root: PathBuf::from("/r"),
+        checkpoints_dir: PathBuf::from("/r/.rip/checkpoints"),
+    }
+}
+
+// C13 -- the patch/apply resolver: Ok(p) only for strings that are not absolute and contain no `..` segment.
+macro_rules! c13_safe_join {
+    ($name:ident, $len:expr, $unwind:expr) => {
+        #[kani::proof]
+        #[kani::unwind($unwind)]
+        #[kani::stub(std::fmt::format, stub_fmt_format)]
+        fn $name() {
+            let b = sym_path_bytes::<$len>();
+            let raw = unsafe { core::str::from_utf8_unchecked(&b) };
+            let ws = kani_workspace();
+            let ok = match ws.safe_join(Path::new(raw)) {
+                Ok(p) => {
+                    core::mem::forget(p);
+                    true
+                }
+                Err(e) => {
+                    core::mem::forget(e);
+                    false
+                }
+            };
+            let esc = path_escapes(&b);
+            kani::cover!(ok, "a path is accepted");
+            kani::cover!(esc, "an escaping path is generated");
+            if esc {
+                assert!(!ok, "workspace safe_join accepted an absolute path or a path with a `..` segment");
+            }
+            core::mem::forget(ws);
+        }
+    };
+}
+c13_safe_join!(c13_ws_safe_join_len2, 2, 6);
+c13_safe_join!(c13_ws_safe_join_len3, 3, 7);
+
+// C13 -- the checkpoint resolver: a RELATIVE request string is turned into a root-relative path that is recorded in
+// the checkpoint and later joined onto both the checkpoint's files/ directory and the workspace root. Ok(rel) must
+// therefore never contain a `..` segment (the input is relative here; absolute inputs inside the root are legal).
+macro_rules! c13_to_relative {
+    ($name:ident, $len:expr, $unwind:expr) => {
+        #[kani::proof]
+        #[kani::unwind($unwind)]
+        #[kani::stub(std::fmt::format, stub_fmt_format)]
+        fn $name() {
+            let b = sym_path_bytes::<$len>();
+            // slash-free strings only: with '/' in the alphabet the join + strip_prefix + re-parse of the heap path
+            // runs out of memory (62 GB) even at 2 bytes
+            let mut i = 0;
+            while i < $len {
+                kani::assume(b[i] != b'/');
+                i += 1;
+            }
+            let raw = unsafe { core::str::from_utf8_unchecked(&b) };
+            let ws = Workspace { root: PathBuf::from("/"), checkpoints_dir: PathBuf::new() };
+            let ok = match ws.to_relative(Path::new(raw)) {
+                Ok(p) => {
+                    core::mem::forget(p);
+                    true
+                }
+                Err(e) => {
+                    core::mem::forget(e);
+                    false
+                }
+            };
+            let esc = path_escapes(&b);
+            kani::cover!(ok, "a path is accepted");
+            kani::cover!(esc, "an escaping path is generated");
+            if esc {
+                assert!(!ok, "checkpoint path resolver accepted a path with a `..` segment");
+            }
+            core::mem::forget(ws);
+        }
+    };
+}
+c13_to_relative!(c13_ws_to_relative_len2, 2, 6);
+
+#[kani::proof]
+fn c00_setup_probe() {
+    let x: u8 = kani::any();
+    assert!(x as u16 <= 255);
+}
